@@ -7,14 +7,20 @@
     S      = {"types":[{"name","kind","fields":[{"name","py","opPy","ty":T,"args":[{"name","py","ty":T}]}],
                         "interfaces":[..],"members":[..]}], "query": name|null, "mutation": name|null}
     T      = {"n": name} | {"l": T} | {"nn": T}
-    OP     = {"type":"query"|"mutation","name":str,"fields":[E,...]}
+    OP     = {"type":"query"|"mutation","name":str,"fields":[E,...],"lets":[[x, E],...]?}
+             (`lets`: the assignments `x = E` executed before the call; variables stay bound for the rest of
+              the sequence)
     E      = {"k":"attr","cls","attr"} | {"k":"call","cls","attr","kw":[[param, wire value],...]}
            | {"k":"alias","e":E,"a":str} | {"k":"fields","e":E,"cs":[E]} | {"k":"on","e":E,"ty":str,"cs":[E]}
+           | {"k":"var","x":str}
     RESULT = {"doc": DOC | null, "error": str | null, "valid": bool, "trig": {...}, "deepVars": bool}
   Each sequence starts from the state right after import (history = the earlier OPs of the sequence).
+  Every sequence is run by `runPOp` (Model/BuilderLet.lean), which on variable-free operations IS `runOp`
+  (`Properties/C14.lean: runProg_conservative`); the triggers of the findings stated on tree expressions are
+  evaluated on the operation with its variables written out (`POp.inline`).
 -/
 import AriadneModel.Driver.Wire
-import AriadneModel.Spec.BuilderDoc
+import AriadneModel.Spec.BuilderLetDoc
 
 open Lean (Json)
 open Ariadne Ariadne.Wire Ariadne.Builder Ariadne.CustomGen Ariadne.BuilderDoc
@@ -67,8 +73,9 @@ def decType (j : Json) : Except String TypeDef := do
 def decSchema (j : Json) : Except String Schema := do
   pure { types := ← (← arrOf j "types").mapM decType, query := ← optStr j "query", mutation := ← optStr j "mutation" }
 
-partial def decExpr (j : Json) : Except String Expr := do
+partial def decExpr (j : Json) : Except String PExpr := do
   match ← fieldStr j "k" with
+  | "var" => pure (.var (← fieldStr j "x"))
   | "attr" => pure (.attr (← fieldStr j "cls") (← fieldStr j "attr"))
   | "call" =>
     let kw ← (← arrOf j "kw").mapM fun it => do
@@ -84,8 +91,15 @@ partial def decExpr (j : Json) : Except String Expr := do
   | "on" => pure (.on (← decExpr (← field j "e")) (← fieldStr j "ty") (← (← arrOf j "cs").mapM decExpr))
   | k => throw s!"expr kind {k}"
 
-def decOp (j : Json) : Except String Op := do
-  pure { opType := ← fieldStr j "type", name := ← fieldStr j "name", fields := ← (← arrOf j "fields").mapM decExpr }
+def decLet (j : Json) : Except String (String × PExpr) := do
+  let pr ← j.getArr?
+  if h : 2 ≤ pr.size then
+    pure (← pr[0].getStr?, ← decExpr pr[1])
+  else throw "let pair expected"
+
+def decOp (j : Json) : Except String POp := do
+  pure { lets := ← (← arrOf j "lets").mapM decLet,
+         opType := ← fieldStr j "type", name := ← fieldStr j "name", fields := ← (← arrOf j "fields").mapM decExpr }
 
 def encOptStr : Option String → Json
   | some s => .str s
@@ -122,22 +136,26 @@ def encClass (c : ClassDef) : Json :=
 def encPackage (p : Package) : Json := .arr (p.classes.map encClass).toArray
 
 /-- run one sequence from the state after import; per op: result + validator verdict + triggers -/
-def runSeq (s : Schema) (p : Package) (ops : List Op) : List Json :=
-  let rec go (hist : List Op) (st : Store) : List Op → List Json
+def runSeq (s : Schema) (p : Package) (ops : List POp) : List Json :=
+  let rec go (hist : List Op) (defs : List (String × Expr)) (info : List VarInfo) (env : Env) (st : Store) : List POp → List Json
     | [] => []
     | op :: rest =>
-      let (r, st1) := runOp p op st
+      let (r, env1, st1) := runPOp p op env st
+      -- the operation with its variables written out (what the tree-expression triggers are stated on)
+      let (inl, defs1) : Op × List (String × Expr) := match op.inline defs with
+        | some x => x
+        | none => ({ opType := op.opType, name := op.name, fields := [] }, defs)
       let trig := Json.mkObj [
-        ("listArg", trigListArgList p op.fields),
-        ("pyName", trigPyNameList p op.fields), ("sharedMut", trigSharedMut hist op),
-        ("nameClash", trigClash r)]
+        ("listArg", trigListArgList p inl.fields),
+        ("pyName", trigPyNameList p inl.fields), ("sharedMut", trigSharedMut hist inl),
+        ("nameClash", trigClash r), ("ownedReuse", trigOwnedReuse info op)]
       -- region of the FIXED finding C14-F2 (an argument below level 2): no trigger any more, only measured
-      let deep : Json := trigDeepList 1 op.fields
+      let deep : Json := trigDeepList 1 inl.fields
       let out := match r with
         | .ok d => Json.mkObj [("doc", encDoc d), ("error", .null), ("valid", validDoc s d), ("trig", trig), ("deepVars", deep)]
         | .error e => Json.mkObj [("doc", .null), ("error", encErr e), ("valid", false), ("trig", trig), ("deepVars", deep)]
-      out :: go (hist ++ [op]) st1 rest
-  go [] p.initStore ops
+      out :: go (hist ++ [inl]) defs1 (infoLets op.lets info) env1 st1 rest
+  go [] [] [] [] p.initStore ops
 
 def handle (j : Json) : Except String Json := do
   let op ← fieldStr j "op"
